@@ -36,6 +36,24 @@ func runC05(c *Ctx) {
 	r.Rule("R4", "every dispatch of a server line is a plain call in the single consumer goroutine (no second, concurrent dispatcher can run user handlers while later lines are applied)")
 	r.Rule("R5", "each handler-set dispatch iterates over a snapshot freshly built under the set's lock (a cached or stale list would skip a state handler registered since)")
 	r.Rule("R3", "every mutating state.Tracker call in package client lies in a function reachable only by awaited edges from internal-table handlers or lifecycle functions (Enable/DisableStateTracking, connect initialisation)")
+	r.Rule("R6", "event loops of successive connections never overlap (shared with C03.R6): the teardown waits for the connection goroutines with the connection mutex held, member goroutines are started with it held - so the new session's state updates cannot run beneath a foreground handler of the old one")
+	r.Rule("R7", "no event is dispatched on a detached goroutine: every call of Conn.dispatch anywhere in package client is a plain or deferred call, never a go statement (a user handler running beside the event loop would see the tracker change under it)")
+	c.loopExclusionRule("R6")
+	{
+		n := 0
+		for _, fn := range c.clientFuncs() {
+			for _, cs := range CallSites(fn) {
+				for _, e := range c.Callees(cs) {
+					if e.Callee != a.ConnDispatch {
+						continue
+					}
+					n++
+					r.Add("R7", "dispatch-awaited:"+c.FuncKey(fn), c.InstrPos(cs), c.FuncKey(fn), "events are dispatched by an awaited call", e.Kind != EdgeGo, kindName(cs)+" of Conn.dispatch in "+c.FuncKey(fn))
+				}
+			}
+		}
+		r.Floor("R7", "call sites of Conn.dispatch", n, 3)
+	}
 
 	// R1
 	byFn := map[*ssa.Function][]ssa.CallInstruction{}
